@@ -37,5 +37,7 @@ func Scenarios(prop string) []gx.Sc {
 		{Name: "cg?m=1&np=1&n=2&mode=all&ns=1&setuperr=1&gates=" + gates + "&faults=" + faults + ca, Q: 2, T: 3},
 		{Name: "cg?m=1&np=1&n=2&mode=all&ns=2&strategy=sticky&gates=" + gates + "&faults=" + faults + ca, Q: 2, T: 3},
 		{Name: "cg?m=2&np=2&n=2&mode=all&ns=2&strategy=roundrobin&gates=" + gates + "&faults=" + faults + ca, Q: 1, T: 2},
+		// no rebalance retries at all (Rebalance.Retry.Max = 0): every budget-bound branch of a rebalance is on its last attempt
+		{Name: "cg?m=1&np=1&n=2&mode=all&ns=2&rbmax=0&gates=" + gates + "&faults=" + faults + ca, Q: 2, T: 3},
 	}
 }
